@@ -23,13 +23,14 @@ import (
 type c16Env struct {
 	x       *sched.Exec
 	w       *world.World
-	pending int      // actor threads still running
-	obs     []string // observations (actor: result)
-	bad     []string // protocol violations noticed by actors
-	closing bool     // a Close actor is part of the scenario
-	closed  bool     // Close has returned
-	held    int      // write transactions handed out by Begin(true) and not yet finished (engine-level actors)
-	failing bool     // a store-failure actor is part of the scenario
+	pending int              // actor threads still running
+	obs     []string         // observations (actor: result)
+	bad     []string         // protocol violations noticed by actors
+	closing bool             // a Close actor is part of the scenario
+	closed  bool             // Close has returned
+	held    int              // write transactions handed out by Begin(true) and not yet finished (engine-level actors)
+	failing bool             // a store-failure actor is part of the scenario
+	reuse   []lungo.ISession // sessions whose transaction start may have been abandoned: used again at the end
 }
 
 func (e *c16Env) spawn(name string, fn func()) {
@@ -204,6 +205,7 @@ func c16Actors() []c16Actor {
 					return nil, nil
 				})
 				e.note("Y.with", err, context.Canceled)
+				e.reuse = append(e.reuse, sess)
 				// whatever the cancellation hit, the transaction is over when WithTransaction returns: the session stays open (a
 				// long-lived session), so the end-of-execution check sees a writer slot that was not given back
 			})
@@ -323,6 +325,19 @@ func c16Run(actors []c16Actor, prefix, expectN []int) (*sched.Result, *c16Env, [
 		// end-of-execution checks
 		eng := w.Engine
 		closedByActor := env.closed
+		// a session whose WithTransaction was cancelled (possibly while it waited for the writer slot) is as good as new
+		for _, sess := range env.reuse {
+			err := sess.StartTransaction()
+			if err != nil && !errors.Is(err, lungo.ErrEngineClosed) {
+				end = append(end, fmt.Sprintf("session-unusable-after-abandoned-start: StartTransaction on a session whose cancelled WithTransaction had returned fails: %v", err))
+			}
+			if err == nil {
+				if aerr := sess.AbortTransaction(w.Ctx); aerr != nil && !errors.Is(aerr, lungo.ErrEngineClosed) {
+					end = append(end, fmt.Sprintf("session-unusable-after-abandoned-start: AbortTransaction returned %v", aerr))
+				}
+			}
+			sess.EndSession(w.Ctx)
+		}
 		if !env.closed {
 			if !eng.VerifTokenFree() || eng.VerifTxn() != nil {
 				end = append(end, fmt.Sprintf("slot-not-free: after all actors finished the writer slot is free=%v, current transaction set=%v", eng.VerifTokenFree(), eng.VerifTxn() != nil))
